@@ -124,6 +124,15 @@ BUILT = {
             'Exit pupil from the independent ABCD oracle; either sphere root accepted (one root for the whole pupil; per ray '
             'only for pupils aberrated by thousands of waves); lenses with an asphere r^2 term excluded (C04 finding).',
             'DESIGN.md §4 C09'),
+    'C13': ('history monitor: random interleavings of 28 call kinds on one live lens with a deep structural snapshot after every call, argument hashing, repeat comparison, and batch-independence re-traces',
+            'Exploration: 144 (quick) / ~10k (thorough) histories of 12 calls (every trace flavour, paraxial/aberration '
+            'queries, wavefront/PSF/MTF, every analysis class, operands) on lenses with and without vignetting, coatings '
+            'and polarization; after every call the whole reachable lens state except the documented per-trace records '
+            'must be unchanged, caller arrays unmodified, repeated kinds bit-identical; single rays re-traced alone / '
+            'permuted / with lost companions / after unrelated calls agree at 1e-12 (10x tol for iterated shapes).',
+            'The paraxial/aberrations/ray_generator helper objects (back reference + private scratch) are not part of the '
+            'prescription and are excluded from the snapshot; unseeded random sampling is not compared.',
+            'DESIGN.md §4 C13'),
 }
 
 NOT_YET = {}
